@@ -6,6 +6,7 @@ import (
 	"errors"
 	"fmt"
 	"io"
+	"os"
 	"runtime"
 	"sort"
 	"strings"
@@ -338,6 +339,8 @@ func (d *driver) dropFromPool(s *fakeStream, sid int) error {
 // stream's record (letCloseHookRun: decided by the lock state, never by timing). The read loop stays alive (the frames
 // already received are still handled), every later handler run of this stream gets an already-finished context.
 func (d *driver) cancelStream(sid int) error {
+	t0 := time.Now()
+	defer slowWait("cancelStream", t0)
 	s := d.streams[sid]
 	if s == nil {
 		return nil
@@ -363,6 +366,8 @@ func (d *driver) cancelStream(sid int) error {
 // there is nothing to wait for; this is decided by the lock state alone, not by timing. If remoteMu is free, the
 // hook is running or about to run: wait until it has dropped the stream's record.
 func (d *driver) letCloseHookRun(sid int) {
+	t0 := time.Now()
+	defer slowWait("letCloseHookRun", t0)
 	deadline := time.Now().Add(3 * time.Second)
 	lockedRuns := 0
 	for time.Now().Before(deadline) {
@@ -385,6 +390,8 @@ func (d *driver) letCloseHookRun(sid int) {
 
 // awaitNoRecord waits until the close hook of a removed stream has dropped its record
 func (d *driver) awaitNoRecord(sid int) {
+	t0 := time.Now()
+	defer slowWait("awaitNoRecord", t0)
 	deadline := time.Now().Add(waitLong)
 	for time.Now().Before(deadline) {
 		_, strs := pubsub.VerifServing(d.svc)
@@ -421,6 +428,13 @@ func (d *driver) shutdown() {
 }
 
 var errHang = errors.New("hang")
+
+// slowWait reports (development aid, C17_TIMING=1 only) a wait of the driver that took unusually long
+func slowWait(what string, t0 time.Time) {
+	if dt := time.Since(t0); dt > 300*time.Millisecond && os.Getenv("C17_TIMING") != "" {
+		fmt.Fprintf(os.Stderr, "c17: slow wait %s %.2fs\n", what, dt.Seconds())
+	}
+}
 
 func (d *driver) open(acct int) (int, error) {
 	sid := d.nextSid
@@ -1230,7 +1244,7 @@ func (g *gen) genServiceCloseRace(r *vlib.Rand, thorough bool, budget int) {
 // publish) and tries to subscribe (nothing may be registered); finally the holders withdraw, the last snapshot is empty.
 func (g *gen) genServicePublisherGone(r *vlib.Rand, thorough bool, budget int) {
 	ensureAccounts(3)
-	n := 40 * budget
+	n := 32 * budget
 	if thorough {
 		n = 600 * budget
 	}
